@@ -398,6 +398,7 @@ type HarnessCfg struct {
 	CrossEach     int
 	Tier          string
 	Expect        map[string]string // known finding ids declared by the harness
+	MaxWall       time.Duration
 }
 
 type Explorer struct {
@@ -409,6 +410,7 @@ type Explorer struct {
 	busy  int
 	cond  *sync.Cond
 	stop  bool
+	t0    time.Time
 }
 
 func (ex *Explorer) pop() ([]decision, bool) {
@@ -445,6 +447,7 @@ func (ex *Explorer) done(alts [][]decision) {
 
 func (ex *Explorer) Run() *HarnessResult {
 	t0 := time.Now()
+	ex.t0 = t0
 	ex.cond = sync.NewCond(&ex.mu)
 	ex.stack = [][]decision{nil}
 	var wg sync.WaitGroup
@@ -485,6 +488,15 @@ func (ex *Explorer) worker() {
 	for {
 		prefix, ok := ex.pop()
 		if !ok {
+			return
+		}
+		if ex.cfg.MaxWall > 0 && time.Since(ex.t0) > ex.cfg.MaxWall {
+			ex.res.incomplete(fmt.Sprintf("bound: wall-clock budget of %s exhausted with unexplored paths", ex.cfg.MaxWall))
+			ex.mu.Lock()
+			ex.stop = true
+			ex.busy--
+			ex.mu.Unlock()
+			ex.cond.Broadcast()
 			return
 		}
 		if len(ts.all) > 3_000_000 {
